@@ -644,6 +644,24 @@ class C19Executor(Executor):
             return [(st, VInt(NCH(args[0].t)))]          # len(element) = number of children
         return super().b_len(st, args, kwargs, node)
 
+    def b_next(self, st, args, kwargs, node):
+        """next(<element sequence>[, default]): its first item, the default / StopIteration when it is empty"""
+        if args and isinstance(args[0], VSeq) and isinstance(args[0].tag, dict) and not kwargs and len(args) <= 2:
+            seq, out = args[0], []
+            if self.feasible(st.pc, seq.length <= 0):
+                a = st.fork().assume(seq.length <= 0)
+                if len(args) == 2:
+                    out.append((a, args[1]))
+                else:
+                    self.raise_in(a, self.mk_exc("StopIteration"))
+            if self.feasible(st.pc, seq.length > 0):
+                st.assume(seq.length > 0)
+                for f in (seq.tag.get("facts") or (lambda k: []))(z3.IntVal(0)):
+                    st.assume(f)
+                out.append((st, seq.elem(z3.IntVal(0))))
+            return out
+        return super().b_next(st, args, kwargs, node) if hasattr(super(), "b_next") else self.havoc_call(st, "next", args, node)
+
     def call_method(self, st, obj, name, args, kwargs, node):
         if isinstance(obj, VRef) and st.obj(obj.ref).kind == "slist":
             if name == "append" and len(args) == 1 and isinstance(args[0], VStr):
@@ -831,6 +849,11 @@ class C19Executor(Executor):
         inv = spec.inv if spec is not None else None
         accs = sorted(r for r in (set(self.mutated_refs(nodes, st)) | set(accs_extra)) if self.is_strlist(st, r))
         extra = {"accs": accs, "svars": self.string_accumulators(st, nodes)}
+        src = it.tag if isinstance(it, VSeq) and isinstance(it.tag, dict) else None
+        for r in accs:                                        # which sequence the items of this list come from
+            if ("comp_src", r) not in st.ghost:
+                st.ghost[("loop_src", r)] = (src.get("findall") or (("iter",) + tuple(src["iter"]) if "iter" in src else "other")) \
+                    if src is not None else "other"
         if inv is not None:
             self.add_vc("inv-init", label, st.pc, self._b(inv(LoopCtx(self, st, z3.IntVal(0), entry, it, extra))),
                         loc=self.loc(node))
@@ -1099,6 +1122,20 @@ CLOSER = {"(": ")", "[": "]", "{": "}"}
 STRUCT_TAGS = ("f", "sSup", "sSub", "sSubSup", "rad", "nary", "d", "m", "func", "bar", "acc", "t")
 
 
+def joined(c, sep, e, child):
+    """the string `sep.join(items)` built on this path whose items come from the element's own `child` children
+    (findall): None when there is not exactly one such join.  A list whose provenance the executor did not see is
+    accepted; one that is known to come from another sequence (e.g. all descendants) is not."""
+    cands = []
+    for (s_, ref, j) in c.st.ghost.get("joins", ()):
+        if s_ != sep:
+            continue
+        src = c.st.ghost.get(("comp_src", ref)) or c.st.ghost.get(("loop_src", ref))
+        if src is None or (isinstance(src, str) and src == "other") or (isinstance(src, tuple) and len(src) == 2 and src[0].eq(e) and src[1] == Q(child)):
+            cands.append(j)
+    return cands[0] if len(cands) == 1 else None
+
+
 def path_tag(c):
     """the tag literal this path has committed to (from the path condition), if any"""
     e = A0(c)
@@ -1165,15 +1202,13 @@ def template(tag):
                          res == cat(head, ct, "}"))
         elif tag == "d":
             left, right = own_val(e, "dPr", "begChr", "("), own_val(e, "dPr", "endChr", ")")
-            cands = [j for (sep, ref, j) in c.st.ghost.get("joins", ())
-                     if sep == ", " and c.st.ghost.get(("comp_src", ref)) is not None
-                     and c.st.ghost[("comp_src", ref)][0].eq(e) and c.st.ghost[("comp_src", ref)][1] == Q("e")]
-            mid = cands[0] if len(cands) == 1 else z3.String(fresh_name("no-join-of-e-operands"))
+            mid = joined(c, ", ", e, "e")
+            mid = z3.String(fresh_name("no-join-of-e-operands")) if mid is None else mid
             body = res == cat(left, mid, right)
         elif tag == "m":
             guard = z3.And(guard, z3.Not(FINDNONE(e, sval(Q("mr")))))
-            cands = [j for (sep, ref, j) in c.st.ghost.get("joins", ()) if sep == " \\\\ "]
-            mid = cands[0] if len(cands) == 1 else z3.String(fresh_name("no-join-of-rows"))
+            mid = joined(c, " \\\\ ", e, "mr")
+            mid = z3.String(fresh_name("no-join-of-rows")) if mid is None else mid
             body = res == cat("\\begin{matrix}", mid, "\\end{matrix}")
         elif tag == "t":
             txt = z3.If(z3.Or(TEXTNONE(e), z3.Length(TEXT(e)) == 0), sval(""), TEXT(e))
@@ -1551,7 +1586,11 @@ ASSUMED_MODELS = [
 ]
 ASSUMPTIONS = ["PY-STR", "PY-EXC", "PY-REC (modular recursion; decreases on subtree size)", "TREE-FINITE",
                "PY-ORDER", "'balanced' = equal numbers of '{' and '}' (DESIGN App. B)"]
-BOUNDED = ["order of the formula lists built at the docx / pptx call sites (display equations first, document order): "
+BOUNDED = ["replay grammar (round 4): every structure nested in every operand slot / matrix cell of every structure, m:subHide / "
+           "m:supHide / m:degHide in every ST_OnOff spelling (an operand hidden by a property that is switched ON may be rendered or "
+           "left out; switched off or absent it must be rendered), containers outside the vocabulary, foreign wrappers, repeated "
+           "equations in one container",
+           "order of the formula lists built at the docx / pptx call sites (display equations first, document order): "
            "native comparison on the container scope of replay/C19.py::site_scope, not proved",
            "run texts emitted exactly once and in source order: checked natively by replay/C19.py on all schema-shaped "
            "trees up to depth 2 / width 2 (small scope), not proved",
